@@ -176,7 +176,15 @@ def run_names(rep):
     if not any(r['placeholder'] for b in behs for r in b['requests']):
         raise core.MachineryError('Names run emitted no behaviour with a request made before main(): vacuous')
     traces, infos, cases = [], [], []
-    per = 2 if rep.tier == 'quick' else 8
+    per = 2 if rep.tier == 'quick' else 3
+    if rep.tier != 'quick' and len(behs) > 5000:
+        # thorough: every behaviour with at most two requests, and a seeded sample of the longer ones
+        import random as _r
+        short = [b for b in behs if len(b['requests']) <= 2]
+        longer = [b for b in behs if len(b['requests']) > 2]
+        _r.Random(rep.seed).shuffle(longer)
+        behs = short + longer[:5000 - min(len(short), 5000)]
+        rep.extra['names_behaviours_sampled'] = len(behs)
     jobs = []
     for i, b in enumerate(behs):
         early = any(r['placeholder'] for r in b['requests'])
